@@ -6,6 +6,7 @@ the operation list; the real graph's nodes, attributes, edge directions and
 reachability are compared with it, and random topological orders are checked
 per mode.
 """
+import os
 import networkx as nx
 
 from .. import common, content, gen
@@ -21,7 +22,7 @@ BUDGET = {"quick": 6000, "thorough": 100000}
 MIN_NONTRIVIAL = {"quick": 800, "thorough": 8000}
 REQUIRED_FUNCTIONS = ["utils.py:to_DiGraph"]
 FUNCTIONS = REQUIRED_FUNCTIONS
-REQUIRED_TAGS = ["via:loads", "via:api", "regref:positional", "regref:keyword", "no-arglist", "multi-mode", "single-op", "repeated-mode", "regref:same-register-twice", "instance-after-template-graph"]
+REQUIRED_TAGS = ["via:loads", "via:api", "regref:positional", "regref:keyword", "no-arglist", "multi-mode", "single-op", "repeated-mode", "regref:same-register-twice", "instance-after-template-graph", "regref:via-variable", "via:include"]
 ASSUMPTIONS = ["share relation: a common mode, or a mode of one operation that is a measured register used by the other (either direction, as wires)"]
 
 
@@ -49,7 +50,18 @@ def build_text(rng, g):
     wires = []
     if tags_big:
         tags.add("big")
+    regvars = {}
+    if rng.random() < 0.2:
+        # scalar variables holding an expression over a measured register: an operation that takes such a variable as an
+        # argument reads the register although no q<k> is written in its own argument list
+        for _ in range(rng.choice([1, 2])):
+            r_ = rng.choice([m for m in pool if m >= 0] + [rng.randint(0, 14)])
+            v_ = G.ident()
+            regvars[v_] = r_
+            tags.add("regvar-declared")
+            lines.append("float %s = %s" % (v_, rng.choice(["2*q%d", "q%d/2", "q%d", "0.5*q%d + 1"]) % r_))
     for _ in range(n):
+        extra = set()
         k = rng.choice([1, 1, 1, 2, 2, 3, 4])
         ms = rng.sample(pool, min(k, len(pool)))
         if rng.random() < 0.04:
@@ -73,6 +85,14 @@ def build_text(rng, g):
                         # the same register read by a second argument of this operation
                         kws.append("%s=3*q%d" % (G.ident(fresh=False), regs[0]))
                         tags.add("regref:same-register-twice")
+                elif regvars and rng.random() < 0.4:
+                    v_ = rng.choice(sorted(regvars))
+                    if rng.random() < 0.5:
+                        args.append(v_)
+                    else:
+                        kws.append("%s=%s" % (G.ident(fresh=False), v_))
+                    extra.add(regvars[v_])
+                    tags.add("regref:via-variable")
                 else:
                     args.append(rng.choice(["1", "0.5", "2*3", "pi"]))
             for _ in range(rng.choice([0, 0, 1])):
@@ -84,8 +104,12 @@ def build_text(rng, g):
                     kws.append("%s=%s" % (G.ident(fresh=False), rng.choice(["1", "[1, 2]", "True"])))
             al = "(" + ", ".join(args + kws) + ")"
         lines.append("%s%s | [%s]" % (G.opname(), al, ", ".join(str(m) for m in ms)))
-        wires.append(set(ms) | {int(x) for x in __import__("re").findall(r"(?<![A-Za-z0-9_])q(\d+)(?![A-Za-z0-9_])", al)})
+        wires.append(set(ms) | extra | {int(x) for x in __import__("re").findall(r"(?<![A-Za-z0-9_])q(\d+)(?![A-Za-z0-9_])", al)})
     return "\n".join(lines) + "\n", tags, wires
+
+
+def regvars_used(text):
+    return bool(__import__("re").search(r"(?<![A-Za-z0-9_])q\d+(?![A-Za-z0-9_])", text))
 
 
 def op_wires(op, RRT):
@@ -230,7 +254,8 @@ def run(ctx):
         rng = ctx.rng(i)
         text, tags, wires = build_text(rng, g)
         c = rng.random()
-        if c < 0.12:
+        if c < 0.12 and "regvar-declared" not in tags:
+            # (a template with a register-valued variable is outside every property's quantifier: not instantiated here)
             # a template is converted first, then instantiated; the instance's graph must describe the instance
             lines = text.rstrip("\n").split("\n")
             k = rng.randrange(3, len(lines) + 1)
@@ -250,6 +275,49 @@ def run(ctx):
                 ctx.violation("raises:" + common.exc_key(e), "graph conversion / instantiation of a template raised %s" % common.exc_text(e), {"text": text})
                 continue
             check_program(ctx, inst, set(tags) | {"instance-after-template-graph"}, "via:loads", {"text": text, "via": "template graph, then instance"}, wires=wires)
+            continue
+        if c > 0.92 and len(wires) >= 2 and "negative-modes" not in tags:
+            # the program is an included file, applied several times by a main script: to exactly its own modes (the
+            # operations of the calls must still be separate nodes) and to other modes
+            import shutil
+            import tempfile
+
+            import blackbird
+
+            own = sorted({int(m) for ln in text.split("\n") if " | [" in ln for m in ln.split(" | [")[1].rstrip("]").split(",")})
+            d_ = tempfile.mkdtemp(prefix="bbv-c16-")
+            try:
+                with open(os.path.join(d_, "lib.xbb"), "w") as f_:
+                    f_.write(text.replace(text.split("\n")[0], "name Lib16", 1))
+                other = rng.sample(range(20, 60), len(own))
+                calls = [own, own] + ([other] if rng.random() < 0.5 else []) + ([own] if rng.random() < 0.3 else [])
+                rng.shuffle(calls)
+                main = ["name main16", "version 1.0", 'include "lib.xbb"', ""]
+                w2 = []
+                for cm in calls:
+                    main.append("Lib16 | [%s]" % ", ".join(str(m) for m in cm))
+                    mp_ = dict(zip(own, cm))
+                    # modes are renamed; registers written in arguments are not part of what an include renames
+                    for ln, w_ in zip([l_ for l_ in text.split("\n") if " | [" in l_], wires):
+                        ms_ = {int(m) for m in ln.split(" | [")[1].rstrip("]").split(",")}
+                        w2.append({mp_[m] for m in ms_} | (w_ - ms_))
+                    if rng.random() < 0.4:
+                        main.append("Vac | %d" % cm[0])
+                        w2.append({cm[0]})
+                with open(os.path.join(d_, "main.xbb"), "w") as f_:
+                    f_.write("\n".join(main) + "\n")
+                try:
+                    P = blackbird.load(os.path.join(d_, "main.xbb"))
+                except Exception as e:
+                    ctx.out_of_domain("include scenario does not load (%s)" % type(e).__name__)
+                    continue
+            finally:
+                shutil.rmtree(d_, ignore_errors=True)
+            if regvars_used(text):
+                # register arguments inside an included program: what the include does to them is not settled here
+                check_program(ctx, P, set(tags) | {"via:include"}, "via:loads", {"text": text, "main": "\n".join(main)})
+            else:
+                check_program(ctx, P, set(tags) | {"via:include"}, "via:loads", {"text": text, "main": "\n".join(main)}, wires=w2)
             continue
         P, exc = common.real_loads(text)
         if exc is not None:
